@@ -929,6 +929,10 @@ def const_eval(e, ints, assumed):
         return ints[e0["name"]]
     if e0["k"] == "cond":
         c = eval_bool(e0["c"], assumed, {})
+        if c is None:
+            cc = const_eval(e0["c"], ints, assumed)
+            if cc is not None:
+                c = bool(cc)
         a, b = const_eval(e0["a"], ints, assumed), const_eval(e0["b"], ints, assumed)
         if c is True:
             return a
